@@ -1,7 +1,8 @@
 (* Extraction of the xpx models (C02, extension part) for the correspondence driver. ExtrOcamlBasic only. *)
 Require Import ExtrOcamlBasic.
-Require Import XV.GenXpx XV.XpxDefs.
+Require Import XV.GenXpx XV.XpxDefs XV.XpxCpDefs.
 Extraction "extracted/xpx_model.ml"
   difference intersection has_same_node has_same_nodes leading trailing distinct_tbl
-  math_min math_max math_highest math_lowest padding align align_mode_of gen_padding_default
+  math_min math_max math_highest math_lowest padding align align_mode_of gen_padding_default padding_tree align_tree
+  gen_exslt_padding_align_count_characters
   id_tokens id_nodes.
